@@ -168,6 +168,7 @@ PROPS = {
         tests=[
             dict(name="TestSequences", quick=8000, thorough=600000, shards_thorough=8),
             dict(name="TestEnumSmall", quick=1, thorough=1, shards_quick=2, shards_thorough=16, rapid=False),
+            dict(name="TestLongChains", quick=1500, thorough=100000, shards_thorough=4),
             dict(name="TestConcurrentPairs", quick=300, thorough=30000, shards_thorough=4, race=True, shrinktime="5s"),
             dict(name="TestReplayWhileWriting", quick=600, thorough=20000, shards_thorough=8, race=True, shrinktime="5s"),
         ],
